@@ -121,7 +121,8 @@ Lemma wavelength_lookup_isotope f hi he w : wavelength_lookup f KIsotope hi he =
   (hi = true -> w = WIso) /\ (w = WEl -> f = true /\ hi = false /\ he = true) /\ w <> WNone.
 Proof. destruct f, hi, he; simpl; intro H; inversion H; repeat split; congruence. Qed.
 
-(* record of a finding: the source's thermal_cx_pec takes the ELEMENT's wavelength for an isotope receiver *)
+(* record of a finding (fixed in /repo by 4f8cd49): the unfixed thermal_cx_pec took the ELEMENT's wavelength
+   for an isotope receiver *)
 Definition thermal_cx_pec_witness : pcase :=
   mkcase AThermalCXPEC false false false KElement KIsotope Present false true true.
 
